@@ -15,7 +15,9 @@ TECHNIQUE = ('exhaustive enumeration of all texts of <= 3/4 lines over the line 
              'all forms must be byte-identical to the str form')
 ASSUMPTIONS = ['inputs contain no line separator other than "\\n" (the property\'s domain)',
                'list form = text.split("\\n") minus one trailing empty string']
-L = spaces.LINES + ['é日', '$m$']
+# '\ufeff# h': a text whose first character is U+FEFF (what an editor's byte order mark decodes to under utf-8): it is part of the
+# text, and every way of supplying the text must treat it the same
+L = spaces.LINES + ['é日', '$m$', '\ufeff# h']
 BOUNDS = {'quick': dict(lines=2, deep=3, sub_lines=1), 'thorough': dict(lines=3, deep=4, sub_lines=2)}
 # one line deeper over the lines whose handling depends on line ends / document end
 LDEEP = ['foo', '', '```', '- a', '  b', '> q', '[l]: /u', '# h', '   ', '| a | b |', '|---|---|', '\\']
@@ -23,7 +25,7 @@ RENDERERS = {'Html': None, 'Markdown': 'mistletoe.markdown_renderer.MarkdownRend
              'LaTeX': 'mistletoe.latex_renderer.LaTeXRenderer', 'Ast': 'mistletoe.ast_renderer.AstRenderer'}
 OTHER_SEPS = set('\r\x0b\x0c\x1c\x1d\x1e\x85\u2028\u2029')
 PAIR_TEXTS = ['foo\n', '# h', '- a\n  b\n', '```\ncode', '> q\n', '', '[l]: /u\n\n[l]\n', '| a | b |\n|---|---|\n| c | d |',
-              '<div>\nx\n</div>\n', 'a\n\n', '    c\n', 'é日\n']
+              '<div>\nx\n</div>\n', 'a\n\n', '    c\n', 'é日\n', '\ufeff- b\n']
 _tmp = None
 # long inputs whose length straddles the usual buffer sizes (a reader that works in blocks must not split a line there)
 LONG_PATTERNS = ['alpha beta *gamma* delta\n', 'x\n', '- item `c`\n  more\n', 'word ' * 30 + '\n', '> q\n\n']
